@@ -106,6 +106,15 @@ def runCache (r : Report) (s : Section) : Report := Id.run do
       if ev ≠ "" ∧ ev ≠ "-" ∧ (limit = 0 ∨ a.data.length < limit ∨ ahas a.data k) then
         r.violation s.idx l.idx s!"struct=cache op=[{joinSp l.op}] evicted {ev} although the cache held {a.data.length} live entries (limit {limit}) and key {k} was {if ahas a.data k then "cached" else "new"}: no eviction is due"
       else r
+    -- "evicts in least-recently-used order": when an eviction IS due, the victim the real cache reports must be the
+    -- least recently used key of the reference cache
+    let lruClause := fun (r : Report) (ao : CacheOut) =>
+      let ev := kvStr obs "evict"
+      match ao.evicted with
+      | [old] => if ev ≠ "" ∧ ev ≠ "-" ∧ ev ≠ toString old then
+          r.violation s.idx l.idx s!"struct=cache op=[{joinSp l.op}] evicted {ev}, but the least recently used key is {old} (recency, oldest last: {keysS a.lru})"
+        else r
+      | _ => r
     -- `setd k v rand` = Cache.Set: SetWithExpire with the configured default expiry
     let lop := match l.op with
       | ["setd", k, v, j] => ["set", k, v, toString expireI, j]
@@ -127,6 +136,7 @@ def runCache (r : Report) (s : Section) : Report := Id.run do
         let (a', ao) := if nsI ≤ 0 then CacheG.setNoTimer C12.Spec.step a k v else a.step (.set k v ticks)
         if ¬ o.evicted.isEmpty then r := r.addCover "cache-evict"
         r := evictClause r k
+        r := lruClause r ao
         r := judge r s!"ns={nsI} {outEvents o}" s!"ns={nsI} {outEvents ao}"
         if ao.evicted.length > 0 ∧ a.data.length < limit then
           r := r.violation s.idx l.idx s!"struct=cache evicted below the limit op=[{joinSp l.op}]"
@@ -174,6 +184,7 @@ def runCache (r : Report) (s : Section) : Report := Id.run do
         let fmt := fun (ret : TakeRet) (o : CacheOut) =>
           s!"{takeRetS ret} calls={if o.loaded then 1 else 0} ns={nsI} {outEvents o}"
         r := evictClause r k
+        r := lruClause r ao
         r := judge r (fmt (CacheG.takeRet c k ld) o) (fmt (CacheG.takeRet a k ld) ao)
         -- the property's words: the loader runs only on a miss
         if kvNat obs "calls" 0 > 0 ∧ (alookup a.data k).isSome then
